@@ -30,8 +30,8 @@ func runC08(w *World) {
 					dl = w.Range(0, 4075, "datalenr")
 				}
 				wantNotif = &corebgp.Notification{Code: byte(w.Draw(256, "code")), Subcode: byte(w.Draw(256, "sub")), Data: w.RandBytes(dl, "data")}
-				if wantNotif.Code == 0 {
-					wantNotif.Code = 6
+				if dl == 0 && w.Draw(2, "nildata") == 0 {
+					wantNotif.Data = nil
 				}
 				if st == StEstablished {
 					fidelityAt = w.Draw(3, "fidx")
